@@ -32,6 +32,9 @@ def instances(tier):
         I("l3_encfail_buf", trig="size", count=2, limit=3, sizes=(1, 3), pre="PreNone", maxrec=4, encfail=2, buf=2),
         # 600-byte units: a record of two units goes to the file in one write call, and the file may take only part of it
         I("l3_oswrite", trig="size", count=2, limit=3, sizes=(1, 2, 3), pre="PreNone", maxrec=4, encfail=1, buf=1, restart=1, oswrite=True),
+        # the active path takes no byte ("no space left"): every append fails, the policy is never consulted, nothing rolls
+        I("l1_nospace", trig="size", count=2, limit=1, sizes=(1, 2), pre="PreC", maxrec=4, restart=1, full=True, buf=99),
+        I("l2_nospace_del", trig="size", roller="delete", count=0, limit=2, sizes=(1, 3), pre="PreC", maxrec=3, restart=1, full=True, buf=99),
         I("big", trig="size", count=2, limit=3, sizes=(1, 2, 4), pre="PreB", maxrec=6, restart=2, hist=False),
         I("big_t", trig="size", count=2, append=False, limit=2, sizes=(1, 2, 3), pre="PreB", maxrec=6, restart=2, hist=False),
     ]
